@@ -4,6 +4,8 @@ import (
 	"bytes"
 	"fmt"
 	"os"
+
+	"verif/harness/core"
 	"path/filepath"
 	"regexp"
 	"sort"
@@ -145,4 +147,20 @@ func minifyBytes(m *minify.M, mt string, in []byte) (out []byte, err error, pan 
 		err = m.Minify(mt, &buf, bytes.NewReader(append([]byte{}, in...)))
 	}()
 	return buf.Bytes(), err, pan
+}
+
+// scratchTMPDIR points TMPDIR at a scratch directory (the library never removes the temporary files of command
+// minifiers); the returned function restores the variable and removes the directory.
+func scratchTMPDIR(label string) func() {
+	tmp := core.Scratch(label)
+	old, had := os.LookupEnv("TMPDIR")
+	os.Setenv("TMPDIR", tmp)
+	return func() {
+		if had {
+			os.Setenv("TMPDIR", old)
+		} else {
+			os.Unsetenv("TMPDIR")
+		}
+		os.RemoveAll(tmp)
+	}
 }
